@@ -243,6 +243,41 @@ struct Repair<'a> {
     /// follow-up operations (after Build) applied so far
     stage: usize,
     built: Option<(usize, Option<Dictionary>)>,
+    /// Outcome of the dead-end model (third part of the KF-C10-1 predicate) for the last sentence
+    /// that tokenized on the repaired replica without `ignore_space` - `Some(true)` iff, after
+    /// dropping the nodes that exist only because of the added unk.def rows, some position
+    /// reachable from 0 before the end has no outgoing node (DESIGN section 9).
+    last_dead_end: Option<bool>,
+}
+
+/// Dead-end model of the accepted dictionary computed from the repaired replica's lattice.
+fn dead_end_model(accepted: &Dictionary, s: &str, nodes: &[vibrato::tokenizer::worker::VerifNode]) -> bool {
+    let chars: Vec<char> = s.chars().collect();
+    let n = chars.len();
+    let mut reach = vec![false; n + 1];
+    let mut out = vec![false; n + 1];
+    reach[0] = true;
+    let mut kept: Vec<(usize, usize)> = vec![];
+    for nd in nodes {
+        if nd.end == 0 || nd.start_word >= n || nd.end > n {
+            continue;
+        }
+        if nd.lex_type == vibrato::dictionary::LexType::Unknown {
+            let (_, base, ..) = accepted.verif_char_info(chars[nd.start_word]);
+            if accepted.verif_unk_rows(base) == 0 {
+                continue; // exists only because of an added row
+            }
+        }
+        kept.push((nd.start_node, nd.end));
+    }
+    kept.sort();
+    for &(a, b) in &kept {
+        if reach[a] {
+            reach[b] = true;
+            out[a] = true;
+        }
+    }
+    (0..n).any(|p| reach[p] && !out[p])
 }
 
 impl Repair<'_> {
@@ -312,13 +347,17 @@ impl Repair<'_> {
             return false;
         }
         let t = make_tokenizer(d, o);
-        let ok = catch(|| {
+        let r = catch(|| {
             let mut w = t.new_worker();
             w.reset_sentence(s);
             w.tokenize();
-            w.num_tokens()
-        })
-        .is_ok();
+            w.verif_lattice().0
+        });
+        self.last_dead_end = match (&r, o.ignore_space) {
+            (Ok(nodes), false) => Some(dead_end_model(accepted, s, nodes)),
+            _ => None,
+        };
+        let ok = r.is_ok();
         self.built = Some((self.stage, Some(t.verif_into_dictionary())));
         ok
     }
@@ -373,6 +412,20 @@ fn check_safe_use(
                     if is_known_unk_gap(tokenizer.dictionary(), s)
                         && repair.tokenizes_when_repaired(tokenizer.dictionary(), o, s)
                     {
+                        match repair.last_dead_end {
+                            Some(true) => ctx.count("kfmodel.dead_end"),
+                            None => ctx.count("kfmodel.not_evaluated"),
+                            Some(false) => {
+                                // the unchanged tree panics only where a reachable position has no
+                                // outgoing node (measured: 0 exceptions in > 1.2 M classified panics
+                                // under seeds 1-3); a panic without such a dead end is another defect
+                                return Err(panic_violation(
+                                    "C10.tokenize",
+                                    &format!("{stage}: tokenizing {s:?} with an accepted dictionary that has a category without unk.def entries, although every position reachable from the sentence start has a candidate word (not known finding KF-C10-1; ignore_space={}, max_grouping_len={})", o.ignore_space, o.max_grouping_len),
+                                    &p,
+                                ));
+                            }
+                        }
                         ctx.known_finding(
                             KF_UNK,
                             &format!(
@@ -535,6 +588,7 @@ impl Scenario for BuildScenario {
             plan,
             stage: 0,
             built: None,
+            last_dead_end: None,
         };
         for op in &plan.ops {
             match op.kind.as_str() {
